@@ -104,6 +104,7 @@ func main() {
 			var wg sync.WaitGroup
 			start := make(chan struct{})
 			ids := make([][]string, s.Storm) // the session identifiers the handler hands out, per goroutine
+			evs := make([][]rec.Ev, s.Storm)
 			for g := 0; g < s.Storm; g++ {
 				wg.Add(1)
 				go func(g int) {
@@ -123,7 +124,9 @@ func main() {
 								}()
 								p, aerr = h.Authenticate(context.Background(), auth.ApplicationContext{ClientID: []byte("c"), Username: []byte(q.U), Password: []byte(q.P)}, auth.TransportContext{})
 							}()
-							r.Emit(rec.Ev{"op": "auth", "u": q.U, "p": q.P, "ok": aerr == nil && !pn, "mount": p.MountPoint, "idlen": len(p.ID), "panic": pn})
+							// recorded after the storm: a shared recorder lock between the calls would order them (and hide from the race
+							// detector whatever the handler shares between calls)
+							evs[g] = append(evs[g], rec.Ev{"op": "auth", "u": q.U, "p": q.P, "ok": aerr == nil && !pn, "mount": p.MountPoint, "idlen": len(p.ID), "panic": pn})
 							if aerr == nil && !pn {
 								ids[g] = append(ids[g], p.ID)
 							}
@@ -134,6 +137,11 @@ func main() {
 			close(start)
 			wg.Wait()
 			// every admitted CONNECT becomes a session under the identifier handed out here: two equal ones are one session
+			for _, l := range evs {
+				for _, e := range l {
+					r.Emit(e)
+				}
+			}
 			seen := map[string]bool{}
 			total := 0
 			for _, l := range ids {
